@@ -20,6 +20,28 @@ Assets:Bank Expenses:Rent 1500 CHF
 
 """
 
+TRAIN2 = """2020-01-01 open Assets:Bank
+2020-01-01 open Expenses:Car
+
+2020-01-05 "Garage Meier service"
+Assets:Bank Expenses:Car 480 CHF
+
+2020-02-05 "Garage Meier tyres"
+Assets:Bank Expenses:Car 620 CHF
+
+"""
+
+FORMATTED = """2021-03-01 "Garage Meier service"
+Assets:Bank Expenses:TBD        510 CHF
+
+2021-04-01 "Garage Meier tyres"
+Assets:Bank Expenses:TBD        640 CHF
+
+2021-05-01 "Garage Meier service"
+Assets:Bank Expenses:TBD        515 CHF
+
+"""
+
 def messy(n, rnd):
     out = ["2020-01-01   open   Assets:Bank\n", "2020-01-01 open Expenses:Food\n", "\n", "# a comment that must survive\n"]
     for i in range(n):
@@ -34,6 +56,8 @@ def workloads(seed):
         "format-large": (["format", "a.knut"], {"a.knut": messy(120, rnd)}, ["a.knut"]),
         "format-two": (["format", "a.knut", "b.knut"], {"a.knut": messy(4, rnd), "b.knut": messy(6, rnd)}, ["a.knut", "b.knut"]),
         "infer-inplace": (["infer", "-t", "train.knut", "--inplace", "a.knut"], {"a.knut": messy(5, rnd), "train.knut": TRAIN}, ["a.knut"]),
+        # an already formatted target whose placeholder is replaced by a name of the same length
+        "infer-samelen": (["infer", "-t", "train2.knut", "--inplace", "a.knut"], {"a.knut": FORMATTED, "train2.knut": TRAIN2}, ["a.knut"]),
     }
 
 def _write(d, files):
@@ -78,6 +102,12 @@ def explore(knut, seed, only=None):
         for name, (argv, files, targets) in workloads(seed).items():
             if only and only[0] != name:
                 continue
+            if name == "infer-samelen":
+                # the target as knut's own formatter lays it out
+                _write(d, files)
+                subprocess.run([knut, "format"] + targets, cwd=d, stdout=subprocess.DEVNULL, stderr=subprocess.DEVNULL, timeout=60)
+                files = dict(files)
+                files.update({t: c for t, c in _read(d, targets).items() if c is not None})
             _write(d, files)
             r = subprocess.run([knut] + argv, cwd=d, stdout=subprocess.DEVNULL, stderr=subprocess.DEVNULL, timeout=60)
             new = _read(d, targets)
